@@ -82,7 +82,9 @@ public:
     {
       if (key.size() == data->key_length_)
       {
-        if (std::memcmp(key.data(), data->key_, data->key_length_) == 0)
+        // An empty key matches without looking at the bytes: key.data() may be null
+        // for an empty view, which memcmp does not accept even for a length of 0.
+        if (key.empty() || std::memcmp(key.data(), data->key_, data->key_length_) == 0)
         {
           return data->value_;
         }
@@ -140,7 +142,12 @@ private:
     {
       key_        = new char[key.size()];
       key_length_ = key.size();
-      std::memcpy(key_, key.data(), key.size() * sizeof(char));
+      if (key_length_ > 0)
+      {
+        // key.data() may be null for an empty view; memcpy requires valid pointers
+        // even when asked to copy 0 bytes.
+        std::memcpy(key_, key.data(), key.size() * sizeof(char));
+      }
       next_  = nostd::shared_ptr<DataList>{nullptr};
       value_ = value;
     }
